@@ -1176,3 +1176,124 @@ func scBPop(n *nodis.Nodis, r *rand.Rand, rounds int) string {
 }
 
 func init() { scenarios["bpop"] = scBPop }
+
+// ---- hostile clients (C17) ---------------------------------------------------------------------
+// One connection per attack sends bytes a client should not send; a canary connection keeps
+// writing and reading its own key and must get prompt, correct answers throughout. The server runs
+// in this process: a crash of the server is a crash of the harness (the check sees the exit status).
+
+func attackPayloads(r *rand.Rand) [][]byte {
+	big := strings.Repeat("9", 30)
+	p := [][]byte{
+		[]byte("*-1\r\n"), []byte("*0\r\n"), []byte("*1\r\n$-1\r\n"), []byte("*1\r\n$-5\r\nabc\r\n"),
+		[]byte("*2\r\n$3\r\nGET\r\n$" + big + "\r\nx\r\n"), []byte("*" + big + "\r\n$3\r\nGET\r\n"),
+		[]byte("*2147483648\r\n$1\r\nx\r\n"), []byte("*1\r\n$536870913\r\n"), []byte("*1\r\n$9223372036854775807\r\n"),
+		[]byte("*1\r\n$-9223372036854775808\r\n"), []byte("*abc\r\n"), []byte("*1\r\n$abc\r\n"), []byte("*1\r\nGET\r\n"),
+		[]byte("$3\r\nGET\r\n"), []byte("\r\n"), []byte("\n"), []byte("\r"), []byte(" "), []byte("\x00"), []byte("'"), []byte("\""),
+		[]byte("\"unterminated\r\n"), []byte("'a\\'\r\n"), []byte("\\"), []byte("GET\r\n"), []byte("SET k\r\n"), []byte("set \"a b\" 'c d'\r\n"),
+		[]byte("*3\r\n$3\r\nSET\r\n$1\r\nk\r\n"), // truncated
+		[]byte("*1\r\n$4\r\nPING"), []byte("*1\r\n$4\r\nPINGxx"), []byte("*1\r\n$0\r\n\r\n"),
+		bytesRepeat("*1\r\n$4\r\nPING\r\n", 2000), bytesRepeat("\r\n", 5000), bytesRepeat("a", 100000), bytesRepeat("* ", 3000),
+	}
+	// wrong arity / wrong numbers / wrong types for every command name, as well-formed RESP
+	names := []string{"GET", "SET", "SETEX", "GETRANGE", "SETRANGE", "INCRBY", "INCRBYFLOAT", "SETBIT", "BITCOUNT", "LPUSH", "LPOP", "LRANGE", "LINDEX", "LSET", "LTRIM", "LREM", "LINSERT",
+		"HSET", "HINCRBY", "HINCRBYFLOAT", "HSCAN", "SADD", "SPOP", "SRANDMEMBER", "SSCAN", "ZADD", "ZRANGE", "ZRANGEBYSCORE", "ZINCRBY", "ZREMRANGEBYRANK", "ZREMRANGEBYSCORE", "ZUNIONSTORE",
+		"ZINTERSTORE", "ZSCAN", "SCAN", "KEYS", "EXPIRE", "EXPIREAT", "PEXPIRE", "TTL", "RENAME", "BLPOP", "BRPOP", "GEOADD", "GEORADIUS", "GEORADIUSBYMEMBER", "GEODIST", "GEOHASH", "GEOPOS",
+		"MULTI", "EXEC", "DISCARD", "WATCH", "UNWATCH", "CLIENT", "CONFIG", "INFO", "ECHO", "PING", "QUIT", "FLUSHDB", "DBSIZE", "TYPE", "DEL", "EXISTS", "MSET", "MGET", "APPEND", "STRLEN",
+		"SAVE", "SELECT", "AUTH", "COMMAND", "NOSUCH", ""}
+	operands := []string{"", "k", "ak", "0", "-1", "1", "9223372036854775807", "-9223372036854775808", "99999999999999999999", "1e400", "nan", "inf", "-inf", "0.5", "abc", "(", "[", "+", "-",
+		"NX", "XX", "GT", "LT", "CH", "INCR", "COUNT", "MATCH", "LIMIT", "WITHSCORES", "WEIGHTS", "AGGREGATE", "BEFORE", "AFTER", "EX", "PX", "KEEPTTL", "GET", "\x00", "\r\n", strings.Repeat("x", 5000), "*", "[a", "\\"}
+	for _, name := range names {
+		for arity := 0; arity < 7; arity++ {
+			args := [][]byte{[]byte(name)}
+			for j := 0; j < arity; j++ {
+				args = append(args, []byte(operands[r.Intn(len(operands))]))
+			}
+			p = append(p, encodeCommand(args))
+		}
+	}
+	return p
+}
+
+func bytesRepeat(s string, n int) []byte { return []byte(strings.Repeat(s, n)) }
+
+func scHostile(n *nodis.Nodis, r *rand.Rand, rounds int) string {
+	addr, err := serveOn(n)
+	if err != nil {
+		return "FAIL " + err.Error()
+	}
+	canary, err := dial(addr)
+	if err != nil {
+		return "FAIL dial"
+	}
+	defer canary.c.Close()
+	// keys of several types for the wrong-type attacks
+	canary.do("SET", "k", "v")
+	canary.do("RPUSH", "ak", "a", "b")
+	check := func(i int, what string) string {
+		t0 := time.Now()
+		v := fmt.Sprintf("v%d", i)
+		canary.c.SetDeadline(time.Now().Add(3 * time.Second))
+		if g, err := canary.do("SET", "canary", v); err != nil || len(g) != 1 || g[0].kind != '+' {
+			return fmt.Sprintf("FAIL after %s the other connection's SET got %v %v", what, g, err)
+		}
+		g, err := canary.do("GET", "canary")
+		if err != nil || len(g) != 1 || g[0].text != v {
+			return fmt.Sprintf("FAIL after %s the other connection's GET returned %v %v, not %s", what, g, err, v)
+		}
+		if d := time.Since(t0); d > 2*time.Second {
+			return fmt.Sprintf("FAIL after %s the other connection waited %v for SET+GET", what, d)
+		}
+		atomic.AddUint64(&progress, 1)
+		return ""
+	}
+	payloads := attackPayloads(r)
+	for round := 0; round < rounds; round++ {
+		for i, p := range payloads {
+			if round > 0 {
+				// later rounds: random mutations (cut, splice, flip) of the payloads
+				q := append([]byte{}, payloads[r.Intn(len(payloads))]...)
+				if len(q) > 0 {
+					switch r.Intn(4) {
+					case 0:
+						q = q[:r.Intn(len(q))]
+					case 1:
+						q[r.Intn(len(q))] = byte(r.Intn(256))
+					case 2:
+						q = append(q, p...)
+					case 3:
+						k := r.Intn(len(q))
+						q = append(append(append([]byte{}, q[:k]...), []byte("$-1\r\n")...), q[k:]...)
+					}
+				}
+				p = q
+			}
+			a, err := net.Dial("tcp", addr)
+			if err != nil {
+				return fmt.Sprintf("FAIL the server no longer accepts connections (attack %d): %v", i, err)
+			}
+			a.SetDeadline(time.Now().Add(2 * time.Second))
+			a.Write(p)
+			// give the server a moment to act on it; read whatever it answers
+			buf := make([]byte, 4096)
+			a.SetReadDeadline(time.Now().Add(20 * time.Millisecond))
+			a.Read(buf)
+			what := fmt.Sprintf("attack %d/%d %q", round, i, truncate(p, 60))
+			if s := check(round*100000+i, what); s != "" {
+				a.Close()
+				return s
+			}
+			a.Close()
+		}
+	}
+	return fmt.Sprintf("ok attacks=%d", rounds*len(payloads))
+}
+
+func truncate(b []byte, n int) []byte {
+	if len(b) > n {
+		return b[:n]
+	}
+	return b
+}
+
+func init() { scenarios["hostile"] = scHostile }
